@@ -78,14 +78,21 @@ def run_property(pid, tier, repo, seed):
         solver_s += (r.get('smt_ms') or 0) / 1000.0
         tags = verus_unit.count_tags(r['text'], pid)
         failed_tags = set()
+        untagged = []
         for f in r['failures']:
             mine = [t for t in f['tags'] if t.startswith(pid + '.')]
             if not f['tags']:
-                raise Undecided(f"{unit}: Verus reported `{f['msg']}` at an untagged location ({f.get('fn')}, {f.get('where')}):\n{f['rendered']}")
+                untagged.append(f"{unit}: Verus reported `{f['msg']}` at an untagged location ({f.get('fn')}, {f.get('where')}):\n{f['rendered']}")
+                continue
             for t in mine:
                 failed_tags.add(t)
                 failures.append(dict(tag=t, backend='verus', unit=unit, fn=f.get('fn'), where=f.get('where'),
                                      detail=f['msg'], output=f['rendered']))
+        if untagged and not failed_tags:
+            # an obligation failed somewhere that carries no clause tag (prelude, vstd precondition, lemma): cannot be attributed
+            raise Undecided(untagged[0])
+        for u in untagged:
+            notes.append('additional untagged verifier error (not attributed): ' + u.split('\n')[0])
         # safety obligations: one per extracted function whose home tag (or C12 twin) belongs to this property
         fn_obls = []
         for fn in r['fns']:
